@@ -55,6 +55,7 @@ type Contract struct {
 	Decreases []*Clause
 	Sinks     []*Clause
 	Covers    []*Clause
+	Axioms    []*Clause // definitional axioms of ghost functions, assumed at entry (listed as assumptions)
 	Unroll    map[int]int // loop ordinal -> unroll count (bounded stand-in)
 	HO        string      // higher-order summary: "once" (invokes func args at most once)
 	External  bool
@@ -182,7 +183,8 @@ func (cs *ContractSet) loadFile(path, pkg string, external bool) error {
 			word, rest = rl.text[:i], strings.TrimSpace(rl.text[i+1:])
 		}
 		// continuation of a multi-line clause?
-		if curClause != nil && rl.indent > curClauseIndent {
+		lemmaMeta := curClause != nil && (curClause.Kind == "lemma" || curClause.Kind == "axiom") && cur == nil && (word == "prop" || word == "ints")
+		if curClause != nil && rl.indent > curClauseIndent && !lemmaMeta {
 			curClause.Text += "\n" + rl.text
 			continue
 		}
@@ -217,6 +219,13 @@ func (cs *ContractSet) loadFile(path, pkg string, external bool) error {
 			cur = nil
 			continue
 		case "lemma", "axiom":
+			if word == "axiom" && cur != nil && rl.indent > 1 {
+				// an axiom clause inside a func block
+				cl := &Clause{Kind: "axiom", Text: rest, File: rl.file, Line: rl.line}
+				cur.Axioms = append(cur.Axioms, cl)
+				curClause, curClauseIndent = cl, rl.indent
+				continue
+			}
 			name := rest
 			body := ""
 			if i := strings.IndexAny(rest, " \t"); i >= 0 {
@@ -307,6 +316,8 @@ func (cs *ContractSet) loadFile(path, pkg string, external bool) error {
 			cur.Ensures = append(cur.Ensures, mkClause("ensures", rest))
 		case "decreases":
 			cur.Decreases = append(cur.Decreases, mkClause("decreases", rest))
+		case "axiom":
+			cur.Axioms = append(cur.Axioms, mkClause("axiom", rest))
 		case "bounded": // bounded unroll N [loop K]
 			f := strings.Fields(rest)
 			if len(f) >= 2 && f[0] == "unroll" {
